@@ -652,7 +652,7 @@ Section Statements.
     - now injection H as <-.
     - inversion Hl as [|? ? Hl1 Hl2]; subst.
       destruct (insert_row ign sch chks rs) as [r| |e] eqn:E; try discriminate.
-      + apply (IH (acc ++ [r])); auto. apply Forall_app. split; auto.
+      + apply (IH (acc ++ [r])); auto. apply Forall_app. split; auto. constructor; eauto.
       + apply (IH acc); auto.
   Qed.
 
@@ -820,7 +820,7 @@ Proof.
   - destruct (row_eqb (map convert (fill_generated sch w)) old); [now injection H as <-|].
     destruct (existsb (check_false (fill_generated sch w)) chks) eqn:Ec; [discriminate|].
     destruct (nullability false sch (fill_generated sch w)) as [w2|] eqn:En; [|discriminate].
-    injection H as <-. now apply recomputed_row_ok.
+    injection H as <-. now apply (recomputed_row_ok sch chks w w2).
 Qed.
 
 Theorem odku_typed_row_ok sch chks sets old new r :
@@ -832,7 +832,7 @@ Proof.
   assert (HLw : length w = length sch).
   { unfold w. rewrite firstn_length_le; auto. rewrite (apply_sets_length _ _ _ _ _ Ea), app_length, !map_length. lia. }
   assert (Hiw : Forall int_cell w).
-  { apply Forall_firstn. apply (apply_sets_int false sch sets _ acc); auto. apply Forall_app. split; apply cells_int. }
+  { apply Forall_firstn. apply (apply_sets_int false sch sets (cells old ++ cells new) acc); auto. apply Forall_app. split; apply cells_int. }
   destruct (row_eqb (map convert w) old) eqn:E1.
   - destruct (existsb (check_false w) chks); [discriminate|].
     destruct (nullability false sch w) as [w2|] eqn:En; [|discriminate].
@@ -840,7 +840,7 @@ Proof.
     apply row_eqb_eq in E1. rewrite E1. rewrite refresh_virtual_id; auto. now destruct Hold as (_ & _ & _ & Hg).
   - destruct (existsb (check_false (fill_generated sch w)) chks) eqn:Ec; [discriminate|].
     destruct (nullability false sch (fill_generated sch w)) as [w2|] eqn:En; [|discriminate].
-    injection H as <-. now apply recomputed_row_ok.
+    injection H as <-. now apply (recomputed_row_ok sch chks w w2).
 Qed.
 
 (* ---------- all histories of typed statements without IGNORE ---------- *)
